@@ -32,11 +32,12 @@ set_option linter.unusedVariables false
 state and whatever the aliveness reading: if the call is delivered, the client's `get_result` returns
 what local evaluation returns (same value; a lazy result as a handle with the same id) or raises the
 same exception — same type, same message, same `code`, same `args` — and leaves the server in the
-state local evaluation leaves the process in.  WF: the server is not shutting down, the value is not
-itself an exception instance, the raised exception has no `code == 4` attribute (see the witnesses). -/
+state local evaluation leaves the process in.  WF: the server is not shutting down and the value is not
+itself an exception instance (see the witness).  (Before the repair of finding C14-F2 a third condition was
+needed: the raised exception has no `code == 4` attribute — see `C14_eval_code4`.) -/
 theorem C14_eval (p : Prog) (env : Env) (srv : Srv) (ha : env.alive0 = true) (hf : env.fate = .ok)
     (hs : srv.shutdown = false)
-    (hv : ∀ x, (run p srv).1 ≠ .ok (.exc x)) (hc : ∀ x, (run p srv).1 = .error x → x.code ≠ 4) :
+    (hv : ∀ x, (run p srv).1 ≠ .ok (.exc x)) :
     getResult p env srv = ((run p srv).1.map wrap, (run p srv).2) := by
   cases ht : p.traceError with
   | some x => rw [getResult_traceError ht, run_traceError ht]; rfl
@@ -44,7 +45,7 @@ theorem C14_eval (p : Prog) (env : Env) (srv : Srv) (ha : env.alive0 = true) (hf
   simp only [getResult_traced ht, ha, hf, handle_getRequest, hs, Bool.not_true, Bool.false_eq_true, if_false]
   cases h : (run p srv).1 with
   | error x =>
-    simp only [decode_exc, onError, hc x h, if_false, Except.map]
+    simp only [decode_exc, Except.map]
   | ok v =>
     simp only [decode_payload, Except.map]
     cases v with
@@ -52,8 +53,8 @@ theorem C14_eval (p : Prog) (env : Env) (srv : Srv) (ha : env.alive0 = true) (hf
     | plain v => rfl
     | list xs => rfl
 
-/-- For C17 expression trees the two WF conditions hold by construction (the values of the callable
-library are never exception instances, its exceptions carry no `code`): remote evaluation of **every**
+/-- For C17 expression trees the WF condition holds by construction (the values of the callable
+library are never exception instances): remote evaluation of **every**
 expression tree, from every state, is `maybe_make` of that expression. -/
 theorem C14_eval_expr (e : Expr) (env : Env) (srv : Srv) (ha : env.alive0 = true) (hf : env.fate = .ok)
     (hs : srv.shutdown = false) :
@@ -62,16 +63,8 @@ theorem C14_eval_expr (e : Expr) (env : Env) (srv : Srv) (ha : env.alive0 = true
   have h := C14_eval (.expr e) env srv ha hf hs
   simp only [run, runExpr] at h
   apply h
-  · intro x
-    cases (maybeMake e srv.lz).1 <;> simp [liftLazy]
-  · intro x hx
-    cases hm : (maybeMake e srv.lz).1 with
-    | ok rv => rw [hm] at hx; simp [liftLazy] at hx
-    | error err =>
-      rw [hm] at hx
-      simp only [liftLazy, Except.error.injEq] at hx
-      subst hx
-      simp [Exc.ofErr]
+  intro x
+  cases (maybeMake e srv.lz).1 <;> simp [liftLazy]
 
 /-- Composition with `C17_eval`: for expressions over pure callables with any cache flags the client
 obtains exactly the value (or error) of ordinary eager evaluation, started in any world. -/
@@ -103,22 +96,26 @@ theorem C14_eval_eager (e : Expr) (env : Env) (srv : Srv) (ha : env.alive0 = tru
         simp only [liftLazy, Except.map, h17]
         cases hv : rv'.1 <;> first | rfl | exact absurd hv (hne _)
 
-/-- Witness for the first WF condition: a program whose **value** is an exception instance
+/-- Witness for the WF condition: a program whose **value** is an exception instance
 (`trace(ValueError)('boom')`).  Locally it returns that instance; the client *raises* it — exactly what
 it does for the program that raises the same exception: the two are indistinguishable remotely. -/
-theorem C14_eval_exc_witness (x : Exc) (srv : Srv) (hs : srv.shutdown = false) (hx : x.code ≠ 4) :
+theorem C14_eval_exc_witness (x : Exc) (srv : Srv) (hs : srv.shutdown = false) :
     (run (.excValue x) srv).1 = .ok (.exc x) ∧
     (getResult (.excValue x) {} srv).1 = .error x ∧
     getResult (.excValue x) {} srv = getResult (.raise x) {} srv := by
   refine ⟨rfl, ?_, ?_⟩ <;>
-    simp [getResult, Prog.traceError, handle_getRequest, run, hs, decode_exc, decode_payload, onError, hx]
+    simp [getResult, Prog.traceError, handle_getRequest, run, hs, decode_exc, decode_payload]
 
-/-- Witness for the second WF condition: an application exception that happens to have an attribute
-`code == 4` is taken for the transport's deadline error and replaced by `TimeoutError`. -/
-theorem C14_eval_code4_witness (x : Exc) (srv : Srv) (hs : srv.shutdown = false) (hx : x.code = 4) :
-    (run (.raise x) srv).1 = .error x ∧ (getResult (.raise x) {} srv).1 = .error tryLongerExc := by
+/-- **Repaired (finding C14-F2).**  An application exception that happens to have an attribute `code == 4`
+used to be taken for the transport's deadline error and replaced by `TimeoutError` (the former
+`C14_eval_code4_witness`); `get_result` now applies the deadline mapping only to a failure of the call itself,
+so the exception reaches the caller unchanged — type, message, `code`, `args`. -/
+theorem C14_eval_code4 (x : Exc) (env : Env) (srv : Srv) (ha : env.alive0 = true) (hf : env.fate = .ok)
+    (hs : srv.shutdown = false) :
+    (run (.raise x) srv).1 = .error x ∧ (getResult (.raise x) env srv).1 = .error x := by
   refine ⟨rfl, ?_⟩
-  simp [getResult, Prog.traceError, handle_getRequest, run, hs, decode_exc, onError, hx]
+  rw [C14_eval (.raise x) env srv ha hf hs (by intro y; simp [run])]
+  rfl
 
 /-- Whatever the fate of the call, the aliveness of the worker and the shutdown flag: if `get_result`
 returns at all, the call was delivered and it returns the (non-exception) value of local evaluation —
@@ -257,7 +254,7 @@ def seen (r : Except Exc Val) : Except Exc CRes := r.map (fun a => wrap (.plain 
 /-- One `next` on a remote iterator is `next` on the underlying iterator: same element or same
 exception, and the server-side iterator advances exactly as the local one. -/
 theorem C14_iter_next (id : Nat) (srv : Srv) (g : Gen) (hs : srv.shutdown = false)
-    (hg : sGet srv.objs (resolve srv.objs id) = some (.iter g)) (hc : g.fin.exc.code ≠ 4) :
+    (hg : sGet srv.objs (resolve srv.objs id) = some (.iter g)) :
     getResult (.next id) {} srv =
       (seen (genNext g).1,
        { srv with objs := sSet srv.objs (resolve srv.objs id) (.iter (genNext g).2) }) := by
@@ -267,35 +264,25 @@ theorem C14_iter_next (id : Nat) (srv : Srv) (g : Gen) (hs : srv.shutdown = fals
   rw [C14_eval (.next id) {} srv rfl rfl hs, hrun]
   · cases (genNext g).1 <;> rfl
   · intro x; rw [hrun]; cases (genNext g).1 <;> simp [Except.map]
-  · intro x; rw [hrun]
-    unfold genNext
-    cases g.items with
-    | nil => simp only [Except.map, Except.error.injEq]; intro h; rw [← h]; exact hc
-    | cons a rest => simp [Except.map]
 
 /-- `k` successive `next` calls through the client are `k` successive `next` calls on the iterator. -/
 theorem C14_iter_run (id : Nat) (k : Nat) : ∀ (srv : Srv) (g : Gen), srv.shutdown = false →
-    sGet srv.objs (resolve srv.objs id) = some (.iter g) → g.fin.exc.code ≠ 4 →
+    sGet srv.objs (resolve srv.objs id) = some (.iter g) →
     (remoteNexts id k srv).1 = (genRun k g).1.map seen ∧
     sGet (remoteNexts id k srv).2.objs (resolve (remoteNexts id k srv).2.objs id) = some (.iter (genRun k g).2) := by
   induction k with
-  | zero => intro srv g _ hg _; exact ⟨rfl, hg⟩
+  | zero => intro srv g _ hg; exact ⟨rfl, hg⟩
   | succ k ih =>
-    intro srv g hs hg hc
+    intro srv g hs hg
     simp only [remoteNexts, genRun, List.map_cons]
-    rw [C14_iter_next id srv g hs hg hc]
-    have hc' : (genNext g).2.fin.exc.code ≠ 4 := by
-      unfold genNext
-      cases g.items with
-      | nil => simp [Fin.exc, stopExc]
-      | cons a rest => exact hc
+    rw [C14_iter_next id srv g hs hg]
     have hres : resolve (sSet srv.objs (resolve srv.objs id) (.iter (genNext g).2)) id = resolve srv.objs id :=
       resolve_sSet_iter _ _ _ _ _ hg
     have hg' : sGet (sSet srv.objs (resolve srv.objs id) (.iter (genNext g).2))
         (resolve (sSet srv.objs (resolve srv.objs id) (.iter (genNext g).2)) id) = some (.iter (genNext g).2) := by
       rw [hres]; exact sGet_sSet_same _ _ _ _ hg
     obtain ⟨h1, h2⟩ := ih { srv with objs := sSet srv.objs (resolve srv.objs id) (.iter (genNext g).2) }
-      (genNext g).2 hs hg' hc'
+      (genNext g).2 hs hg'
     exact ⟨by rw [h1], h2⟩
 
 /-- **Remote iterator.**  Iterating a remote iterator over elements `xs` that ends with `fin`
@@ -303,16 +290,16 @@ theorem C14_iter_run (id : Nat) (k : Nat) : ∀ (srv : Srv) (g : Gen), srv.shutd
 calls: exactly `xs` in order, then the end signal **once**, then a bare `StopIteration` on each of the
 `m` later calls — never a value after exhaustion. -/
 theorem C14_iter (id : Nat) (m : Nat) (srv : Srv) (g : Gen) (hs : srv.shutdown = false)
-    (hg : sGet srv.objs (resolve srv.objs id) = some (.iter g)) (hc : g.fin.exc.code ≠ 4) :
+    (hg : sGet srv.objs (resolve srv.objs id) = some (.iter g)) :
     (remoteNexts id (g.items.length + 1 + m) srv).1 =
       g.items.map (fun a => .ok (wrap (.plain a))) ++ [.error g.fin.exc] ++
         List.replicate m (.error (stopExc [])) := by
-  rw [(C14_iter_run id _ srv g hs hg hc).1, genRun_trace, genTrace_full]
+  rw [(C14_iter_run id _ srv g hs hg).1, genRun_trace, genTrace_full]
   simp [seen, Except.map, List.map_replicate]
 
 /-- One `get` on a remote queue is `get` on the queue. -/
 theorem C14_iter_queue_get (id : Nat) (srv : Srv) (q : QObj) (hs : srv.shutdown = false)
-    (hq : sGet srv.objs id = some (.queue q)) (hc : q.fin.exc.code ≠ 4) :
+    (hq : sGet srv.objs id = some (.queue q)) :
     getResult (.qget id) {} srv =
       (seen (qGet q).1, { srv with objs := sSet srv.objs id (.queue (qGet q).2) }) := by
   have hrun : run (.qget id) srv = ((qGet q).1.map .plain,
@@ -321,41 +308,33 @@ theorem C14_iter_queue_get (id : Nat) (srv : Srv) (q : QObj) (hs : srv.shutdown 
   rw [C14_eval (.qget id) {} srv rfl rfl hs, hrun]
   · cases (qGet q).1 <;> rfl
   · intro x; rw [hrun]; cases (qGet q).1 <;> simp [Except.map]
-  · intro x; rw [hrun]
-    unfold qGet
-    cases q.buf with
-    | nil => simp only [Except.map, Except.error.injEq]; intro h; rw [← h]; exact hc
-    | cons a rest => simp [Except.map]
 
 theorem C14_iter_queue_run (id : Nat) (k : Nat) : ∀ (srv : Srv) (q : QObj), srv.shutdown = false →
-    sGet srv.objs id = some (.queue q) → q.fin.exc.code ≠ 4 →
+    sGet srv.objs id = some (.queue q) →
     (remoteGets id k srv).1 = (qRun k q).1.map seen := by
   induction k with
-  | zero => intro srv q _ _ _; rfl
+  | zero => intro srv q _ _; rfl
   | succ k ih =>
-    intro srv q hs hq hc
+    intro srv q hs hq
     simp only [remoteGets, qRun, List.map_cons]
-    rw [C14_iter_queue_get id srv q hs hq hc]
-    have hc' : (qGet q).2.fin.exc.code ≠ 4 := by
-      unfold qGet
-      cases q.buf <;> exact hc
+    rw [C14_iter_queue_get id srv q hs hq]
     rw [ih { srv with objs := sSet srv.objs id (.queue (qGet q).2) } (qGet q).2 hs
-      (sGet_sSet_same _ _ _ _ hq) hc']
+      (sGet_sSet_same _ _ _ _ hq)]
 
 /-- **Remote queue.**  `get` on a remote (finished) queue yields exactly the buffered elements in
 order and then the end — `StopIteration(*returned)` or the producer's failure — on every later call. -/
 theorem C14_iter_queue (id : Nat) (m : Nat) (srv : Srv) (q : QObj) (hs : srv.shutdown = false)
-    (hq : sGet srv.objs id = some (.queue q)) (hc : q.fin.exc.code ≠ 4) :
+    (hq : sGet srv.objs id = some (.queue q)) :
     (remoteGets id (q.buf.length + m) srv).1 =
       q.buf.map (fun a => .ok (wrap (.plain a))) ++ List.replicate m (.error q.fin.exc) := by
-  rw [C14_iter_queue_run id _ srv q hs hq hc, qRun_trace, qTrace_full]
+  rw [C14_iter_queue_run id _ srv q hs hq, qRun_trace, qTrace_full]
   simp [seen, Except.map, List.map_replicate]
 
 /-- `get_batch` on a remote queue is `get_batch` on the queue: a list of the next buffered elements in
 order; for a queue that ended normally and holds fewer than the batch bound, all of them at once, and
 the end afterwards. -/
 theorem C14_iter_queue_batch (id : Nat) (srv : Srv) (q : QObj) (hs : srv.shutdown = false)
-    (hq : sGet srv.objs id = some (.queue q)) (hc : q.fin.exc.code ≠ 4) :
+    (hq : sGet srv.objs id = some (.queue q)) :
     getResult (.qbatch id) {} srv =
       ((qGetBatch srv.maxBatch q).1.map (fun xs => .val (.list xs)),
        { srv with objs := sSet srv.objs id (.queue (qGetBatch srv.maxBatch q).2) }) ∧
@@ -369,20 +348,6 @@ theorem C14_iter_queue_batch (id : Nat) (srv : Srv) (q : QObj) (hs : srv.shutdow
   · rw [C14_eval (.qbatch id) {} srv rfl rfl hs, hrun]
     · cases (qGetBatch srv.maxBatch q).1 <;> rfl
     · intro x; rw [hrun]; cases (qGetBatch srv.maxBatch q).1 <;> simp [Except.map]
-    · intro x; rw [hrun]
-      unfold qGetBatch
-      cases hb : q.buf with
-      | nil => simp only [Except.map, Except.error.injEq]; intro h; rw [← h]; exact hc
-      | cons a rest =>
-        simp only
-        split
-        · simp [Except.map]
-        · cases hf : q.fin with
-          | stop r => simp [Except.map]
-          | fail y =>
-            simp only [Except.map, Except.error.injEq]
-            intro h; rw [← h]
-            have := hc; rw [hf] at this; exact this
   · intro r a rest hf hb hlt
     refine ⟨?_, ?_⟩
     · unfold qGetBatch
@@ -414,7 +379,6 @@ theorem C14_iter_init (items : List Val) (fin : Fin) (srv : Srv) (hs : srv.shutd
       (.ok (.remote (srv.lz.nextId + 1)), (allocObj (.alias srv.lz.nextId) (allocObj (.iter ⟨items, fin⟩) srv).2).2) := by
     rw [C14_eval _ {} _ rfl rfl (by exact hs), hrun2]
     · rfl
-    · intro x; rw [hrun2]; simp [allocObj]
     · intro x; rw [hrun2]; simp [allocObj]
   simp only [e1, e2]
   refine ⟨trivial, trivial, hs, ?_⟩
@@ -544,7 +508,6 @@ theorem C14_shutdown_inflight_client (sys : Sys) (a b : List Step) (i : Nat) (p 
   refine ⟨_, h, ?_, ?_⟩
   · intro x hx
     simp only [hx, decode_exc, onError, shutdownExc]
-    rfl
   · intro v hv hne
     simp only [hv, Bool.false_eq_true, if_false, decode_payload]
     cases v with
@@ -648,7 +611,7 @@ example : (getResult (.expr (.call (.traced (.fn "failneg") false) [.const (.int
     = .error (Exc.ofErr (.py .value)) := by decide
 -- the witnesses
 example : (run (.excValue boom) s0).1 = .ok (.exc boom) ∧ (getResult (.excValue boom) {} s0).1 = .error boom := by decide
-example : (getResult (.raise { boom with code := 4 }) {} s0).1 = .error tryLongerExc := by decide
+example : (getResult (.raise { boom with code := 4 }) {} s0).1 = .error { boom with code := 4 } := by decide
 -- C14_handle: only the id comes back; chains on the handle; the hypotheses of C14_handle_chain hold
 example : (getResult (.expr exRec) {} s0).1 = .ok (.remote 0) := by decide
 example : Lru.find? s1.lz.obj.data 0 = some (.record [("x", .int 1), ("f", .fn "add")], 1) := by decide
